@@ -41,6 +41,9 @@ def _fn_name(fc):
     owner = getattr(f, '__self__', None)
     name = getattr(f, '__name__', None) or type(f).__name__
     if owner is not None:
+        tag = getattr(owner, 'name', None)
+        if isinstance(tag, str):
+            return f'{type(owner).__name__}.{name}:{tag}'
         return f'{type(owner).__name__}.{name}'
     return name
 
